@@ -63,6 +63,8 @@ const (
 	WFunc1Err  // func(K) error
 	WFunc0Err  // func() error
 	WFunc1PErr // func(K) *PErr - a concrete pointer type that implements error; a nil result is NOT an error
+	WPtrPtr    // **K (behaves like *K)
+	WPtrSlice  // *[]K (a list behind a pointer: accumulates within one parse)
 )
 
 var wrapNames = [...]string{"", "*", "[]", "[]*", "map", "func()", "func(T)", "func(T)error", "func()error", "func(T)*PErr"}
@@ -87,6 +89,12 @@ func (t TypeSpec) String() string {
 		return "func(" + t.K.String() + ")error"
 	case WFunc1PErr:
 		return "func(" + t.K.String() + ")*PErr"
+	}
+	if t.W == WPtrPtr {
+		return "**" + t.K.String()
+	}
+	if t.W == WPtrSlice {
+		return "*[]" + t.K.String()
 	}
 	return wrapNames[t.W] + t.K.String()
 }
@@ -307,11 +315,15 @@ func (t TypeSpec) GoType() reflect.Type {
 		return reflect.FuncOf([]reflect.Type{e}, []reflect.Type{tError}, false)
 	case WFunc1PErr:
 		return reflect.FuncOf([]reflect.Type{e}, []reflect.Type{reflect.TypeOf((*PErr)(nil))}, false)
+	case WPtrPtr:
+		return reflect.PtrTo(reflect.PtrTo(e))
+	case WPtrSlice:
+		return reflect.PtrTo(reflect.SliceOf(e))
 	}
 	panic("bad wrap")
 }
 
-func (t TypeSpec) IsFunc() bool { return t.W >= WFunc0 }
+func (t TypeSpec) IsFunc() bool { return t.W >= WFunc0 && t.W <= WFunc1PErr }
 
 // IsFlag: the option takes no argument (bool, *bool, []bool, func()).
 func (t TypeSpec) IsFlag() bool {
@@ -324,7 +336,9 @@ func (t TypeSpec) IsFlag() bool {
 	return t.K == KBool
 }
 
-func (t TypeSpec) IsMulti() bool { return t.W == WSlice || t.W == WSlicePtr || t.W == WMap }
+func (t TypeSpec) IsMulti() bool {
+	return t.W == WSlice || t.W == WSlicePtr || t.W == WMap || t.W == WPtrSlice
+}
 
 func isSignedKind(k TK) bool {
 	return (k >= KInt && k <= KInt64) || k == KFloat32 || k == KFloat64
